@@ -361,6 +361,55 @@ def cmd_report(out):
                                                        d["repl"][:70], ",".join(x["p"] for x in d["checks"])))
 
 
+# mutant id -> triage of a survivor (tests pass, no check alarms): why no property of the list is affected
+TRIAGE = {}
+TRIAGE_FILE = os.path.join(VERIF, "seeded", "AUTOMUT_TRIAGE.json")
+
+
+def cmd_md(out):
+    rs = load(out)
+    import collections
+    triage = json.load(open(TRIAGE_FILE)) if os.path.exists(TRIAGE_FILE) else {}
+    per = collections.defaultdict(collections.Counter)
+    surv = []
+    bywhat = collections.Counter()
+    for d in rs.values():
+        f = d["file"].split("/")[-1]
+        if d["tests"] == "fail":
+            per[f]["killed by tests"] += 1
+        elif "checks" not in d:
+            per[f]["not run"] += 1
+        elif d.get("detected_by"):
+            per[f]["detected"] += 1
+            c = [x for x in d["checks"] if x["p"] == d["detected_by"]][0]
+            bywhat["failing input" if c["nvio"] > c["nfi"] else "broken obligation / correspondence only"] += 1
+        else:
+            per[f]["survived"] += 1
+            surv.append(d)
+    lines = ["# Mechanical first-order mutants (harness/automut.py)", "",
+             "Generated against /repo HEAD at the time of the campaign; every mutant is run against the pinned test-suite and, if it",
+             "passes, against the quick checks of the properties anchored in the mutated file until one alarms.  A measurement of",
+             "the checks, not a check.", "",
+             "| file | mutants | killed by the test-suite | tests pass: detected by a check | tests pass: no check alarms | not run |", "|---|---|---|---|---|---|"]
+    tot = collections.Counter()
+    for f in sorted(per):
+        c = per[f]
+        n = sum(c.values())
+        lines.append("| %s | %d | %d | %d | %d | %d |" % (f, n, c["killed by tests"], c["detected"], c["survived"], c["not run"]))
+        tot.update(c)
+    lines.append("| total | %d | %d | %d | %d | %d |" % (sum(tot.values()), tot["killed by tests"], tot["detected"], tot["survived"], tot["not run"]))
+    lines += ["", "How the detected ones were reported: %s." % ", ".join("%s %d" % kv for kv in bywhat.most_common()), "",
+              "## Survivors (tests pass, no check alarms) and their triage", "",
+              "| id | place | operator | change | checks run | triage |", "|---|---|---|---|---|---|"]
+    surv.sort(key=lambda d: (d["file"], d["line"]))
+    for d in surv:
+        lines.append("| %s | %s:%d %s | %s | `%s` -> `%s` | %s | %s |" % (
+            d["id"], d["file"].split("/")[-1], d["line"], d["scope"], d["op"], d["orig"].replace("\n", " ").replace("|", "\\|")[:60],
+            d["repl"].replace("|", "\\|")[:60], ",".join(x["p"] for x in d["checks"]), triage.get(d["id"], "")))
+    open(os.path.join(VERIF, "seeded", "AUTOMUT.md"), "w").write("\n".join(lines) + "\n")
+    print("survivors without triage:", sum(1 for d in surv if d["id"] not in triage))
+
+
 if __name__ == "__main__":
     a = sys.argv[1:]
     if a[0] == "gen":
@@ -371,3 +420,5 @@ if __name__ == "__main__":
         worker(a[1], int(a[2]), int(a[3]))
     elif a[0] == "report":
         cmd_report(a[1])
+    elif a[0] == "md":
+        cmd_md(a[1])
